@@ -681,6 +681,26 @@ void post_execution_checks(const Content& init) {
     bool stats_ok = H.db->get_current_memory_use() == bytes;
     for (int i = 0; i < 5; ++i) stats_ok = stats_ok && nc[static_cast<std::size_t>(i)] == counts[i];
     if (!stats_ok) H.violation("C10", "C10/stats", "node counts or memory use after the concurrent phase differ from the canonical tree: " + describe_events());
+    // growing / shrinking counters move only when an inner node is created, replaced by one of another class, or dissolved:
+    // then, at any quiescent moment, count[c] = grown-into[c] - grown-out-of[c] + shrunk-into[c] - shrunk-out-of[c]
+    // (growing[c] counts nodes that became class c, shrinking[c] nodes of class c that were shrunk or dissolved)
+    {
+      const auto g = H.db->get_growing_inode_counts();
+      const auto sh = H.db->get_shrinking_inode_counts();
+      bool ident = true;
+      for (std::size_t c = 0; c < 4; ++c) {
+        const std::int64_t want = static_cast<std::int64_t>(g[c]) - (c + 1 < 4 ? static_cast<std::int64_t>(g[c + 1]) : 0) +
+                                  (c + 1 < 4 ? static_cast<std::int64_t>(sh[c + 1]) : 0) - static_cast<std::int64_t>(sh[c]);
+        if (want != static_cast<std::int64_t>(nc[c + 1])) ident = false;
+      }
+      if (!ident) {
+        std::ostringstream os;
+        os << "growing/shrinking counters moved without an inner node being created, replaced or dissolved: growing={" << g[0] << "," << g[1] << ","
+           << g[2] << "," << g[3] << "} shrinking={" << sh[0] << "," << sh[1] << "," << sh[2] << "," << sh[3] << "} inner node counts={" << nc[1] << ","
+           << nc[2] << "," << nc[3] << "," << nc[4] << "} :: ";
+        H.violation("C10", "C10/grow-shrink-identity", os.str() + describe_events());
+      }
+    }
     if (H.live_bytes != H.db->get_current_memory_use()) H.violation("C10", "C10/held-bytes", "bytes held from the allocator differ from reported memory use after the drain (leak or lost accounting): held=" + std::to_string(H.live_bytes) + " reported=" + std::to_string(H.db->get_current_memory_use()) + " :: " + describe_events());
 #endif
     // C04 (5): live blocks == reachable nodes
